@@ -93,29 +93,31 @@ type response struct {
 	// buf: per op [code, lenAfter, extra]
 	Steps [][3]int `json:"steps,omitempty"`
 	// call / pub
-	ReqHdr      int              `json:"req_hdr"`           // marshalled request header bytes
-	ReqOps      [][2]interface{} `json:"req_ops,omitempty"` // transport ops of the request message (recorded)
-	MinHdr      int              `json:"min_hdr"`           // marshalled header block holding the op id only
-	ErrMsgLen   int              `json:"errmsg_len"`        // length of the text of the RESPONSE_TOO_LARGE exception
-	Follow2Code int              `json:"follow2_code"`
-	Follow2Msg  string           `json:"follow2_msg,omitempty"`
-	Follow2OK   bool             `json:"follow2_ok"`
-	Consts      []uint64         `json:"consts,omitempty"`
-	RepHdr      int              `json:"rep_hdr"`           // marshalled response header bytes (normal reply)
-	RepOps      [][2]interface{} `json:"rep_ops,omitempty"` // transport ops of the normal reply
-	ErrOps      [][2]interface{} `json:"err_ops,omitempty"` // transport ops of the RESPONSE_TOO_LARGE exception reply
-	Sent        []int            `json:"sent"`              // sizes of request frames / published messages that reached the broker or HTTP server
-	SentOK      bool             `json:"sent_ok"`           // each such frame is well framed and is exactly the expected encoding
-	Replies     []int            `json:"replies"`           // sizes of reply frames the server handed to the broker / HTTP body (unframed+4)
-	HTTPStatus  []int            `json:"http_status,omitempty"`
-	ServerGot   int              `json:"server_got"` // number of times the handler ran
-	ArgsOK      bool             `json:"args_ok"`    // handler decoded exactly the args sent
-	ResultOK    bool             `json:"result_ok"`  // caller decoded exactly the reply the handler produced
-	Result      string           `json:"result,omitempty"`
-	FollowCode  int              `json:"follow_code"`
-	FollowMsg   string           `json:"follow_msg,omitempty"`
-	FollowOK    bool             `json:"follow_ok"`
-	ElapsedMs   int64            `json:"elapsed_ms"`
+	ReqHdr       int              `json:"req_hdr"`           // marshalled request header bytes
+	ReqOps       [][2]interface{} `json:"req_ops,omitempty"` // transport ops of the request message (recorded)
+	MinHdr       int              `json:"min_hdr"`           // marshalled header block holding the op id only
+	ErrMsgLen    int              `json:"errmsg_len"`        // length of the text of the RESPONSE_TOO_LARGE exception
+	Follow2Code  int              `json:"follow2_code"`
+	Follow2Msg   string           `json:"follow2_msg,omitempty"`
+	Follow2OK    bool             `json:"follow2_ok"`
+	FollowSizes  [2]int           `json:"follow_sizes"` // follow-up: request frame, unframed reply
+	Follow2Sizes [2]int           `json:"follow2_sizes"`
+	Consts       []uint64         `json:"consts,omitempty"`
+	RepHdr       int              `json:"rep_hdr"`           // marshalled response header bytes (normal reply)
+	RepOps       [][2]interface{} `json:"rep_ops,omitempty"` // transport ops of the normal reply
+	ErrOps       [][2]interface{} `json:"err_ops,omitempty"` // transport ops of the RESPONSE_TOO_LARGE exception reply
+	Sent         []int            `json:"sent"`              // sizes of request frames / published messages that reached the broker or HTTP server
+	SentOK       bool             `json:"sent_ok"`           // each such frame is well framed and is exactly the expected encoding
+	Replies      []int            `json:"replies"`           // sizes of reply frames the server handed to the broker / HTTP body (unframed+4)
+	HTTPStatus   []int            `json:"http_status,omitempty"`
+	ServerGot    int              `json:"server_got"` // number of times the handler ran
+	ArgsOK       bool             `json:"args_ok"`    // handler decoded exactly the args sent
+	ResultOK     bool             `json:"result_ok"`  // caller decoded exactly the reply the handler produced
+	Result       string           `json:"result,omitempty"`
+	FollowCode   int              `json:"follow_code"`
+	FollowMsg    string           `json:"follow_msg,omitempty"`
+	FollowOK     bool             `json:"follow_ok"`
+	ElapsedMs    int64            `json:"elapsed_ms"`
 }
 
 func protoFactory(name string) *frugal.FProtocolFactory {
